@@ -73,6 +73,12 @@ CLAIMED = {
         "the GlobalOffset conversions are checked exhaustively for every generated genome.",
         "Holds on the explored region only. In-memory (Full) variants; streamed variants are C11/C12. The per-chromosome model is the one validated in C08.",
         "Hypothesis generation, reference-model oracle (per-chromosome restriction) + exhaustive bijection check per genome"),
+    "C13": (
+        "Exhaustive over every list of up to 2 rows of length 0..4 (3 rows of length 0..3) on a two-letter sub-alphabet with every window 1..5 "
+        "for k-mers (bit-packed and generic paths), minimizers (every k <= w), match_string, motif scores and k-mer counts; Hypothesis for five "
+        "alphabets, k up to the largest representable, rows of length w-1, w, w+1 and empty rows. Oracle: per-row plain-Python definitions.",
+        "Holds on the explored region only; the small core is complete.",
+        "exhaustive small-domain enumeration + Hypothesis sampling, reference-model oracle (per-row Python definitions)"),
     "C15": (
         "Fault injection over generated inputs: one format violation of each class is injected at every record position of a well-formed file; "
         "exhaustive over small files x every chunk size x lazy/eager x plain/gzip, sampled for larger files of nine formats. Oracle: an exception "
